@@ -224,4 +224,27 @@ theorem no_unknownFn_root (O : Oracle) (r : Nat) (hr : r < Fn.count) (n : Nat) (
 
 theorem rootIds_defined : MW.Lemmas.ApiSafe.rootIdList.all (fun r => decide (r < Fn.count)) = true := by decide +kernel
 
+/-- REDUCED OUTCOME of an entry point for a backed oracle: a value, the budget, or a broken contract of a callee
+    that is not backed -/
+theorem reduced_outcome {O : Oracle} (hB : Backed O) (r : Nat) (hr : r ∈ MW.Lemmas.ApiSafe.rootIdList) (n : Nat) (σ : State) :
+    (∃ fl, run prog O n (.invoke r) σ = .ok fl) ∨ run prog O n (.invoke r) σ = .error .fuel ∨
+    ∃ g, isBacked g = false ∧ run prog O n (.invoke r) σ = .error (.contract g) := by
+  have hlt : r < Fn.count := by simpa using List.all_eq_true.1 rootIds_defined r hr
+  cases hrun : run prog O n (.invoke r) σ with
+  | ok fl => exact Or.inl ⟨fl, rfl⟩
+  | error e =>
+    cases e with
+    | panic k t =>
+      exact absurd hrun (MW.Lemmas.ApiSound.safe_never_panics prog exports imports closed MW.Lemmas.ApiSafe.closed_ok
+        (.invoke r) checkFuel (MW.Lemmas.ApiSafe.roots_safe r hr) O n σ k t)
+    | contract g =>
+      by_cases hg : isBacked g = true
+      · exact absurd hrun (no_backed_contract_fault hB r n σ g hg)
+      · exact Or.inr (Or.inr ⟨g, by simpa using hg, rfl⟩)
+    | fuel => exact Or.inr (Or.inl rfl)
+    | unknownFn f => exact absurd hrun (no_unknownFn_root O r hlt n σ f)
+
+theorem followerRoots_mem : ∀ r ∈ [Fn.handle, Fn.worker, Fn.processConnectedBlock, Fn.proccessReceivedTx, Fn.asyncImport,
+    Fn.asyncRemove, Fn.Start_wallet], r ∈ MW.Lemmas.ApiSafe.rootIdList := by decide +kernel
+
 end MW.Lemmas.ApiBacked
